@@ -3,6 +3,7 @@
 
     tools/reach.py run     run every quick check with VERIF_COVER_DUMP (evidence to a scratch dir)
     tools/reach.py report  union of the dumps vs every function defined under pysmi/ (ast)
+    tools/reach.py lines   executable lines of pysmi/ never executed by any quick check
 """
 import ast
 import json
@@ -39,10 +40,60 @@ def defined():
     return out
 
 
+def executable_lines(path):
+    out = set()
+
+    def walk(co):
+        for _s, _e, ln in co.co_lines():
+            if ln is not None:
+                out.add(ln)
+        for c in co.co_consts:
+            if hasattr(c, 'co_lines'):
+                walk(c)
+    walk(compile(open(path).read(), path, 'exec'))
+    return out
+
+
+def lines_report():
+    seen = {}
+    ldir = DUMP + '/lines'
+    for fn in os.listdir(ldir):
+        for l in open(os.path.join(ldir, fn)):
+            f, n = l.rsplit(':', 1)
+            seen.setdefault(f, set()).add(int(n))
+    tot_e = tot_s = 0
+    for base, _, files in sorted(os.walk(os.path.join(REPO, 'pysmi'))):
+        for fn in sorted(files):
+            if not fn.endswith('.py'):
+                continue
+            p = os.path.join(base, fn)
+            rel = p[len(REPO) + 1:]
+            ex = executable_lines(p)
+            sn = seen.get(rel, set()) & ex
+            tot_e += len(ex)
+            tot_s += len(sn)
+            miss = sorted(ex - sn)
+            if not miss:
+                continue
+            # compress into ranges
+            rs, a, b = [], miss[0], miss[0]
+            for n in miss[1:]:
+                if n <= b + 2:
+                    b = n
+                else:
+                    rs.append((a, b)); a = b = n
+            rs.append((a, b))
+            print('%-36s %4d/%4d  missing: %s' % (rel, len(sn), len(ex), ' '.join('%d-%d' % r if r[0] != r[1] else str(r[0]) for r in rs)))
+    print('total executable lines %d, executed by some quick check %d' % (tot_e, tot_s))
+
+
 def main():
+    if sys.argv[1] == 'lines':
+        return lines_report()
     if sys.argv[1] == 'run':
         ids = sys.argv[2:] or ['C%02d' % i for i in range(1, 21)]
-        env = dict(os.environ, VERIF_COVER_DUMP=DUMP, VERIF_EVIDENCE_DIR=DUMP + '/ev', VERIF_REPLAY_DIR=DUMP + '/rp')
+        os.makedirs(DUMP + '/lines', exist_ok=True)
+        env = dict(os.environ, VERIF_COVER_DUMP=DUMP, VERIF_LINE_COVER=DUMP + '/lines', VERIF_EVIDENCE_DIR=DUMP + '/ev', VERIF_REPLAY_DIR=DUMP + '/rp')
         for i in ids:
             r = subprocess.run(['/venv/bin/python', os.path.join(HERE, 'run.py'), i, '--tier', 'quick'],
                                env=env, capture_output=True, text=True)
